@@ -767,6 +767,11 @@ def krylov(model, sfield, efield, var):
         i = -1  # Mark it as error; returned field is all zero.
         var.exit_message += " (returned field is zero)"
 
+    # Final error (l2-norm) of the returned field. The sslsolver can return
+    # between two callbacks, and multigrid as pre-conditioner overwrites
+    # `var.l2` with the error of its own (inner) system.
+    var.l2 = residual(model, sfield, efield, True)
+
     # Convergence-checks for sslsolver.
     if var.verb == 3:
         pre = 50*" " + "\r"
